@@ -527,14 +527,19 @@ func runScenario(id string, sc scenario, r *core.Rand) {
 	// a second, concurrent Close() of the same sessions must wait just like the first one
 	var close2Ret int64
 	closed2 := make(chan struct{})
-	if sc.Closer == "double" {
+	if sc.Closer == "double" || sc.Closer == "session+peer" {
 		go func() {
-			var wg sync.WaitGroup
-			for _, l := range links {
-				wg.Add(1)
-				go func(s erpc.Session) { defer wg.Done(); s.Close() }(l.B)
+			if sc.Closer == "session+peer" {
+				// the peer is closed while the Close() of its session is still waiting: it waits as well
+				px.Close()
+			} else {
+				var wg sync.WaitGroup
+				for _, l := range links {
+					wg.Add(1)
+					go func(s erpc.Session) { defer wg.Done(); s.Close() }(l.B)
+				}
+				wg.Wait()
 			}
-			wg.Wait()
 			atomic.StoreInt64(&close2Ret, stamp())
 			close(closed2)
 		}()
@@ -777,6 +782,14 @@ func main() {
 						scs = append(scs, scenario{Proto: pn, K: k[0], K2: k[1], Point: pt, Closer: cl, Class: "placed", Sess: sess, DelayPM: 200})
 					}
 				}
+			}
+		}
+	}
+	// Peer.Close() while the Close() of a session of that peer is still waiting for its handlers
+	for _, pn := range []string{"raw", "json"} {
+		for _, pt := range []string{"inside", "handlecall.beforeReply"} {
+			for _, k := range []int{1, 4} {
+				scs = append(scs, scenario{Proto: pn, K: k, K2: 0, Point: pt, Closer: "session+peer", Class: "placed", Sess: 1})
 			}
 		}
 	}
